@@ -58,8 +58,10 @@ PROPS = {
         "clause": "crates/pretty/src/render.rs, every function that touches the render state: the position invariant (current_line == 1 + #newlines written, col == chars "
                   "after the last newline) and the anchor invariant (every recorded anchor's (dst_line, dst_column) is the 1-based line/character column of the output "
                   "offset at which its text was written, its text is there, offsets non-decreasing) hold after every operation, for all Doc trees and RenderOpts; break-only "
-                  "text (IfBreak / IfBreakPad) is written iff the frame's mode is Break, IfFlatPad iff Flat (Verus, unbounded).",
-        "assumptions": ["not covered: the clause 'rendered text contains every fragment in document order' (no ghost content log built), termination of render_inner / fits_flat loops",
+                  "text (IfBreak / IfBreakPad) is written iff the frame's mode is Break, IfFlatPad iff Flat; the trailing-whitespace pass (strip_trailing_whitespace, real loop) loses, adds or "
+                  "reorders no non-blank character (lemma_strip_content, lemma_rendered_text) (Verus, unbounded).",
+        "assumptions": ["not covered: document order of fragments ACROSS frames (no ghost content log; per frame the exact output of Text/Anchored is proved and the strip pass is content-preserving), "
+                        "termination of render_inner / fits_flat loops",
                         "input conditions (wf_doc/wf_opts): newline is \\n or \\r\\n, Line separators and IfBreak texts contain no newline, anchored texts are non-empty and do not end in a space, "
                         "document cost <= 2^31 (sizes stay inside the machine integers)"],
     },
